@@ -86,3 +86,138 @@ pub fn term_relation_with<VS: VersionSet>(t1: &Term<VS>, t2: &Term<VS>) -> TermR
         crate::term::Relation::Inconclusive => TermRelation::Inconclusive,
     }
 }
+
+// ---- crate-private containers: scripted access (SmallVec<u32>, SmallMap<u32, u32>) ----
+
+use crate::internal::{SmallMap, SmallVec};
+use std::fmt::Write as _;
+use std::hash::{Hash, Hasher};
+
+/// A hasher that records what is fed to it.
+struct RecordingHasher(String);
+impl Hasher for RecordingHasher {
+    fn finish(&self) -> u64 {
+        0
+    }
+    fn write(&mut self, bytes: &[u8]) {
+        self.0.push('B');
+        for b in bytes {
+            let _ = write!(self.0, "{:02x}", b);
+        }
+        self.0.push(';');
+    }
+    fn write_usize(&mut self, i: usize) {
+        let _ = write!(self.0, "U{};", i);
+    }
+}
+
+fn smallvec_state(s: &SmallVec<u32>) -> String {
+    let tag = match s {
+        SmallVec::Empty => "E",
+        SmallVec::One(_) => "1",
+        SmallVec::Two(_) => "2",
+        SmallVec::Flexible(_) => "F",
+    };
+    let items: Vec<String> = s.iter().map(|x| x.to_string()).collect();
+    format!("{}:{}", tag, items.join(","))
+}
+
+/// Run a script (`P<x>` push, `O` pop, `C` clear, separated by spaces) on an empty `SmallVec<u32>`:
+/// the state after every operation, then what `Hash` feeds to the hasher and the length.
+pub fn smallvec_script(script: &str) -> String {
+    let mut s: SmallVec<u32> = SmallVec::empty();
+    let mut out: Vec<String> = Vec::new();
+    for op in script.split(' ').filter(|o| !o.is_empty()) {
+        if op == "O" {
+            let popped = s.pop();
+            let p = popped.map(|x| x.to_string()).unwrap_or_else(|| "none".into());
+            out.push(format!("{}:{}", smallvec_state(&s), p));
+        } else if op == "C" {
+            s.clear();
+            out.push(smallvec_state(&s));
+        } else if let Some(x) = op.strip_prefix('P').and_then(|x| x.parse::<u32>().ok()) {
+            s.push(x);
+            out.push(smallvec_state(&s));
+        } else {
+            return "bad-op".into();
+        }
+    }
+    let mut h = RecordingHasher(String::new());
+    s.hash(&mut h);
+    format!("{}|hash={}|len={}", out.join(";"), h.0, s.len())
+}
+
+fn smallmap_state(m: &SmallMap<u32, u32>) -> String {
+    let tag = match m {
+        SmallMap::Empty => "E",
+        SmallMap::One(_) => "1",
+        SmallMap::Two(_) => "2",
+        SmallMap::Flexible(_) => "F",
+    };
+    let mut items: Vec<(u32, u32)> = m.iter().map(|(k, v)| (*k, *v)).collect();
+    if let SmallMap::Flexible(_) = m {
+        items.sort();
+    }
+    let items: Vec<String> = items.iter().map(|(k, v)| format!("{}={}", k, v)).collect();
+    format!("{}:{}", tag, items.join(","))
+}
+
+/// Run a script on an empty `SmallMap<u32, u32>`; operations separated by `;`:
+/// `I k v` insert, `R k` remove, `G k` get, `S k` split_one, `L` len,
+/// `M k=v,k=v` merge with `|a, b| if (a + b) % 3 == 0 { None } else { Some(a + b) }`.
+pub fn smallmap_script(script: &str) -> String {
+    let mut m: SmallMap<u32, u32> = SmallMap::default();
+    let mut out: Vec<String> = Vec::new();
+    let opt = |o: Option<u32>| o.map(|x| x.to_string()).unwrap_or_else(|| "none".into());
+    for op in script.split(';').filter(|o| !o.is_empty()) {
+        let f: Vec<&str> = op.split(' ').collect();
+        let num = |i: usize| f.get(i).and_then(|x| x.parse::<u32>().ok());
+        match (f[0], f.len()) {
+            ("I", 3) => match (num(1), num(2)) {
+                (Some(k), Some(v)) => {
+                    m.insert(k, v);
+                    out.push(smallmap_state(&m));
+                }
+                _ => return "bad-op".into(),
+            },
+            ("R", 2) => match num(1) {
+                Some(k) => {
+                    let r = m.remove(&k);
+                    out.push(format!("{}:{}", smallmap_state(&m), opt(r)));
+                }
+                None => return "bad-op".into(),
+            },
+            ("G", 2) => match num(1) {
+                Some(k) => out.push(format!("{}:{}", smallmap_state(&m), opt(m.get(&k).copied()))),
+                None => return "bad-op".into(),
+            },
+            ("S", 2) => match num(1) {
+                Some(k) => match m.split_one(&k) {
+                    Some((v, rest)) => out.push(format!("{}:{}:{}", smallmap_state(&m), v, smallmap_state(&rest))),
+                    None => out.push(format!("{}:none", smallmap_state(&m))),
+                },
+                None => return "bad-op".into(),
+            },
+            ("L", 1) => out.push(format!("{}:{}", smallmap_state(&m), m.len())),
+            ("M", 1) | ("M", 2) => {
+                let mut pairs: Vec<(u32, u32)> = Vec::new();
+                for e in f.get(1).copied().unwrap_or("").split(',').filter(|e| !e.is_empty()) {
+                    match e.split_once('=').map(|(k, v)| (k.parse::<u32>(), v.parse::<u32>())) {
+                        Some((Ok(k), Ok(v))) => pairs.push((k, v)),
+                        _ => return "bad-op".into(),
+                    }
+                }
+                m.merge(pairs.iter().map(|(k, v)| (k, v)), |a, b| {
+                    if (a + b) % 3 == 0 {
+                        None
+                    } else {
+                        Some(a + b)
+                    }
+                });
+                out.push(smallmap_state(&m));
+            }
+            _ => return "bad-op".into(),
+        }
+    }
+    out.join(";")
+}
